@@ -146,7 +146,7 @@ def depth_ok(f, depth=0):
         return False
     if f.op == 'gamma':
         return depth_ok(f.args[1], depth + 1) and depth_ok(f.args[2], depth + 1)
-    return f.op in ('ref', 'attr', 'closure') or (depth > 0 and ((f.op == 'unknown' and f.args == ('keyerror',)) or (f.op == 'const' and f.args[0] is None)))
+    return f.op in ('ref', 'attr', 'closure', 'partial') or (depth > 0 and ((f.op == 'unknown' and f.args == ('keyerror',)) or (f.op == 'const' and f.args[0] is None)))
 
 
 FALL = T('fall')
@@ -442,6 +442,7 @@ class FuncGraph:
         f = self.prog.nested_func(self.cur_fn, s)
         t = self.mk('closure', (f,), s)
         t.extra = dict(env)
+        t.extra[('$scope',)] = (id(self.cur_fn), len(self._inline_stack))
         env[s.name] = t
         return None
 
@@ -608,6 +609,7 @@ class FuncGraph:
         names, attrs = set(), set()
         new_helpers = self.prog.new_helper_names()
         records = self.record_names()
+        row_views = self.__dict__.get('_row_views', {})
 
         class V(ast.NodeVisitor):
             def visit_Name(s2, n):
@@ -633,6 +635,8 @@ class FuncGraph:
                         b = b.value
                     if isinstance(b, ast.Name):
                         names.add(b.id)
+                        if b.id in row_views:
+                            names.add(row_views[b.id])
                 s2.generic_visit(n)
 
             def visit_Attribute(s2, n):
@@ -674,6 +678,11 @@ class FuncGraph:
         self.loops.append(loop)
         if kind == 'for':
             loop.iter = iter_term if iter_term is not None else self.expr(s.iter, env)
+        views = self.__dict__.setdefault('_row_views', {})
+        if kind == 'for' and isinstance(s.iter, ast.Call) and isinstance(s.iter.func, ast.Name) and s.iter.func.id == 'enumerate' and len(s.iter.args) == 1 \
+                and isinstance(s.iter.args[0], ast.Name) and isinstance(s.target, ast.Tuple) and len(s.target.elts) == 2 and isinstance(s.target.elts[1], ast.Name):
+            # for k, row in enumerate(X): ... row[d] = v   changes X (see assign): X is carried around this loop and the loops nested in it
+            views[s.target.elts[1].id] = s.iter.args[0].id
         carried = self.assigned_names(s.body)
         if kind == 'for':
             carried |= self.assigned_names([ast.Assign(targets=[s.target], value=ast.Constant(0))])
@@ -882,6 +891,32 @@ class FuncGraph:
         elif isinstance(target, ast.Subscript):
             base_old = self.expr(target.value, env)
             idx = self.index(target.slice, env)
+            if base_old.op == 'dict' or (base_old.op == 'store' and idx.op == 'const' and isinstance(idx.args[0], str)):
+                self.__dict__.setdefault('not_followed', []).append(('dict written by key', getattr(node, 'lineno', 0)))
+            b_ = base_old
+            while b_.op in ('mu', 'store', 'refine'):
+                b_ = b_.args[0]
+            if b_.op == 'elem' or (b_.op == 'unpack' and isinstance(b_.args[0], T) and b_.args[0].op == 'elem'):
+                # row[d] = v with `for k, row in enumerate(X)` is X[k, d] = v: the array the loop runs over is what changes
+                done = False
+                if b_.op == 'unpack' and b_.args[1] == 1 and b_.args[2] == 2:
+                    it_ = b_.args[0].args[0]
+                    if it_.op == 'call' and it_.args[0].op == 'ref' and it_.args[0].args[0] == ('builtin', 'enumerate') and len(it_.args[1]) == 1 and not it_.args[2]:
+                        X = it_.args[1][0]
+                        def root_(v_):
+                            while isinstance(v_, T) and v_.op == 'mu':
+                                v_ = v_.args[0]
+                            return v_
+                        names = [k_ for k_, v_ in env.items() if isinstance(k_, str) and root_(v_) is root_(X)]
+                        if len(names) == 1:
+                            k_index = self.mk('unpack', (b_.args[0], 0, 2, None, None), node)
+                            items_ = tuple(idx.args[0]) if idx.op == 'tuple' else (idx,)
+                            st2 = self.mk('store', (env[names[0]], self.mk('tuple', ((k_index,) + items_,), node), value), node)
+                            self.event('store', st2, node, data=dict(target=env[names[0]], how='subscript-store'))
+                            env[names[0]] = st2
+                            done = True
+                if not done:
+                    self.__dict__.setdefault('not_followed', []).append(('array updated through the element of a loop over it', getattr(node, 'lineno', 0)))
             st = self.mk('store', (base_old, idx, value), node)
             self.event('store', st, node, data=dict(target=base_old, how='subscript-store'))
             self.rebind_target_base(target.value, st, env, node)
@@ -909,7 +944,7 @@ class FuncGraph:
             return self.mk('gamma', (value.args[0], a, b), node)
         if value.op == 'raise' or (value.op == 'unknown' and value.args == ('keyerror',)):
             return value          # a path that does not return (KeyError of a dispatch table): no component to select
-        if value.op == 'tuple' and (depth > 0 or top) and len(value.args[0]) == n and not any(isinstance(x, T) and x.op == 'star' for x in value.args[0]):
+        if value.op in ('tuple', 'list') and (depth > 0 or top) and len(value.args[0]) == n and not any(isinstance(x, T) and x.op == 'star' for x in value.args[0]):
             return value.args[0][i]
         if value.op == 'mu' and isinstance(value.extra, tuple):
             # a pair that is carried around a loop as ONE variable (`posterior = (affiliation, quadratic_form)` ... `a, q = posterior`): its components are carried
@@ -1079,6 +1114,8 @@ class FuncGraph:
         c = self._named_component(base, e.attr, e)
         if c is not None:
             return c
+        if e.attr == '_fields' and base.op == 'ref' and self._namedtuple_fields(base.args[0]) is not None:
+            return self.mk('tuple', (tuple(const(n_, e, self.fn) for n_ in self._namedtuple_fields(base.args[0])[0]),), e)          # Point._fields
         if base.op == 'ref':
             o = base.args[0]
             if isinstance(o, (Mod, Lib)):
@@ -1166,6 +1203,14 @@ class FuncGraph:
         d = self._desugar_max_key(e, env)
         if d is not None:
             return d
+        if isinstance(e.func, ast.Name) and e.func.id == 'map' and 'map' not in env and len(e.args) == 2 and not e.keywords and not any(isinstance(a, ast.Starred) for a in e.args):
+            # map(f, xs) is (f(x) for x in xs)
+            var = ast.Name(id='_map_item', ctx=ast.Load())
+            gen = ast.GeneratorExp(elt=ast.Call(func=e.args[0], args=[var], keywords=[]),
+                                   generators=[ast.comprehension(target=ast.Name(id='_map_item', ctx=ast.Store()), iter=e.args[1], ifs=[], is_async=0)])
+            ast.copy_location(gen, e)
+            ast.fix_missing_locations(gen)
+            return self.expr(gen, env)
         f = self.expr(e.func, env)
         args = []
         for a in e.args:
@@ -1203,6 +1248,7 @@ class FuncGraph:
         if c is not None:
             return c
         t = self.mk('call', (f, tuple(args), tuple(kws)), e)
+        self._note_unfollowed_call(f, args, kws, e)
         self.event('call', t, e)
         for k in e.keywords:
             if k.arg == 'out' and isinstance(k.value, ast.Name):
@@ -1273,6 +1319,11 @@ class FuncGraph:
             if args[0].op == 'partial':
                 return self.mk('partial', (args[0].args[0], tuple(args[0].args[1]) + tuple(args[1:]), tuple(args[0].args[2]) + tuple(kws)), e)
             return self.mk('partial', (args[0], tuple(args[1:]), tuple(kws)), e)
+        if f.op == 'attr' and f.args[1] in ('items', 'keys', 'values') and f.args[0].op == 'dict' and plain and not args and not kws:
+            d_ = f.args[0]
+            if f.args[1] == 'items':
+                return self.mk('tuple', (tuple(self.mk('tuple', ((k, v),), e) for k, v in zip(d_.args[0], d_.args[1])),), e)          # {'a': x}.items() is (('a', x),)
+            return self.mk('tuple', (tuple(d_.args[0] if f.args[1] == 'keys' else d_.args[1]),), e)
         if f.op == 'attr' and f.args[1] == 'join' and f.args[0].op == 'const' and isinstance(f.args[0].args[0], str) and plain and not kws and len(args) == 1:
             # ','.join(['...n', '...nd']) is the literal; a list selected by a test gives a literal selected by that test
             def joined(x, depth=0):
@@ -1286,6 +1337,22 @@ class FuncGraph:
             j = joined(args[0])
             if j is not None:
                 return j
+        if f.op == 'ref' and f.args[0] == ('builtin', 'map') and plain and not kws and len(args) >= 2 and all(a.op in ('tuple', 'list') for a in args[1:]) \
+                and len({len(a.args[0]) for a in args[1:]}) == 1 and 1 <= len(args[1].args[0]) <= 6 and not any(x.op == 'star' for a in args[1:] for x in a.args[0]):
+            # map(f, (a, b)) is (f(a), f(b))
+            outs = []
+            for i in range(len(args[1].args[0])):
+                call_args = [a.args[0][i] for a in args[1:]]
+                g_ = args[0]
+                kw_ = []
+                if g_.op == 'partial':
+                    call_args, kw_, g_ = list(g_.args[1]) + call_args, list(g_.args[2]), g_.args[0]
+                c = self.canonical_call(g_, call_args, kw_, e, env)
+                if c is None:
+                    c = self.mk('call', (g_, tuple(call_args), tuple(kw_)), e)
+                    self.event('call', c, e)
+                outs.append(c)
+            return self.mk('tuple', (tuple(outs),), e)
         if f.op == 'ref' and f.args[0] == ('builtin', 'zip') and plain and not kws and len(args) >= 2 and all(a.op in ('tuple', 'list') for a in args) \
                 and len({len(a.args[0]) for a in args}) == 1 and not any(x.op == 'star' for a in args for x in a.args[0]):
             # zip((a, b), (c, d)) is ((a, c), (b, d))
@@ -1530,6 +1597,9 @@ class FuncGraph:
                         continue
                     a2 = [self._specialise(a, f.args[0], pol) for a in args]
                     k2 = [(k, self._specialise(v, f.args[0], pol)) for k, v in kws]
+                    if br.op == 'partial':
+                        later_ = {k for k, _ in k2 if k is not None}
+                        a2, k2, br = list(br.args[1]) + a2, [(k, v) for k, v in br.args[2] if k not in later_] + k2, br.args[0]
                     c = self.canonical_call(br, a2, k2, e, env)
                     if c is None:
                         c = self.mk('call', (br, tuple(a2), tuple(k2)), e)
@@ -1589,13 +1659,43 @@ class FuncGraph:
         self.event('call', t, node)
         return t
 
+    def _note_unfollowed_call(self, f, args, kws, e):
+        """a call the graph keeps as an opaque call although what it does depends on values the graph does not resolve (see pbv/opaque.py)"""
+        nf = self.__dict__.setdefault('not_followed', [])
+        line = getattr(e, 'lineno', 0)
+        is_lib = f.op == 'ref' and (isinstance(f.args[0], Lib) or (isinstance(f.args[0], tuple) and f.args[0] and f.args[0][0] == 'builtin'))
+        is_lib = is_lib or (f.op == 'attr' and f.args[0].op == 'ref' and isinstance(f.args[0].args[0], (Lib, Mod)))
+        if f.op in ('sub', 'call', 'gamma', 'partial') or (f.op == 'refine' and isinstance(f.args[0], T) and f.args[0].op in ('gamma', 'sub', 'call')):
+            nf.append(('callee selected at run time', line))
+        if not is_lib:
+            if any(a.op == 'star' for a in args):
+                nf.append(('starred arguments that are not a display', line))
+            if any(k is None for k, _ in kws):
+                nf.append(('keyword dictionary that is not a display', line))
+            if any(isinstance(a, T) and a.op in ('closure', 'partial') for a in list(args) + [v for _, v in kws]):
+                nf.append(('local function passed on as a value', line))
+
+    def _gave_up(self, callee, node):
+        """a helper / local function that should have been evaluated in place could not be (starred arguments, recursion, generators ...): what it does is not in the
+        graph of the caller.  Recorded, so that a report about the caller is not mistaken for a decided deviation (core.Run._not_followed)."""
+        self.__dict__.setdefault('not_followed', []).append((f'local / new helper not evaluated in place ({getattr(callee, "qual", str(callee)).split("::")[-1]})', getattr(node, 'lineno', 0)))
+        return None
+
     def inline_helper(self, f, args, kws, e, env):
         """a call of a repo function that the reference tree (pbv/known_funcs.json) does not have is evaluated in place"""
         callee, cenv, pre = None, {}, []
+        live_capture = None
         if f.op == 'ref' and isinstance(f.args[0], Func):
             callee = f.args[0]
         elif f.op == 'closure':
             callee, cenv = f.args[0], dict(f.extra or {})
+            scope = cenv.pop(('$scope',), None)
+            if scope == (id(self.cur_fn), len(self._inline_stack)):
+                # called in the scope that defined it: a local function reads the CURRENT values of the variables it captured (late binding), not the ones at its definition
+                for k_ in list(cenv):
+                    if k_ in env:
+                        cenv[k_] = env[k_]
+                live_capture = dict(cenv)
         elif f.op == 'attr' and self.self_name and f.args[0] is self.params.get(self.self_name) and self.fn.cls is not None and not self._inline_stack:
             m = self.prog.find_method(self.fn.cls, f.args[1]) if hasattr(self.prog, 'find_method') else self.fn.cls.methods.get(f.args[1])
             if isinstance(m, Func) and not m.is_classmethod and not m.is_property:
@@ -1606,26 +1706,32 @@ class FuncGraph:
         if is_lambda and f.op != 'closure':
             return None
         if callee in self._inline_stack or len(self._inline_stack) >= 3 or callee.kwarg:
-            return None
-        if any(a.op == 'star' for a in args) or any(k is None for k, _ in kws):
-            return None
+            return self._gave_up(callee, e)
+        pos_ = callee.posonly + callee.args
+        n_fixed = len(pos_) - len(pre)
+        # f(a, *rest) called as f(x, *ys): the starred actual IS the tuple `rest` (whatever its length)
+        star_is_rest = callee.vararg and len(args) == n_fixed + 1 and args[-1].op == 'star' and not any(a.op == 'star' for a in args[:-1])
+        if (any(a.op == 'star' for a in args) and not star_is_rest) or any(k is None for k, _ in kws):
+            return self._gave_up(callee, e)
         if any(isinstance(n, (ast.Yield, ast.YieldFrom, ast.Global, ast.Nonlocal, ast.Await)) for n in ast.walk(callee.node)):
-            return None
+            return self._gave_up(callee, e)
         if callee.cls is not None and not pre and not callee.is_static:
-            return None
+            return self._gave_up(callee, e)
         if f.op == 'attr' and isinstance(f.args[0], T) and f.args[0].op == 'ref' and isinstance(f.args[0].args[0], Cls):
             pass
         pos = callee.posonly + callee.args
         actual = pre + list(args)
         if len(actual) > len(pos) and not callee.vararg:
-            return None
+            return self._gave_up(callee, e)
         bound = dict(zip(pos, actual))
-        if callee.vararg:
+        if callee.vararg and star_is_rest:
+            bound[callee.vararg] = actual[-1].args[0]
+        elif callee.vararg:
             # f(a, *rest): the surplus positional arguments are the tuple `rest`
             bound[callee.vararg] = self.mk('tuple', (tuple(actual[len(pos):]),), e)
         for k, v in kws:
             if k in bound or k not in callee.params:
-                return None
+                return self._gave_up(callee, e)
             bound[k] = v
         saved = self.cur_fn
         self.cur_fn = callee
@@ -1633,7 +1739,7 @@ class FuncGraph:
             for p in callee.params:
                 if p not in bound:
                     if p not in callee.defaults:
-                        return None
+                        return self._gave_up(callee, e)
                     bound[p] = self.expr(callee.defaults[p], {})
             env2 = dict(cenv)
             env2.update(bound)
@@ -1664,6 +1770,17 @@ class FuncGraph:
                 for k in list(env):
                     if env[k] is a_:
                         env[k] = v
+        # ... and a local function that updates a captured array in place (features[:, f] = ...) updates the array of the enclosing function
+        if live_capture is not None and finals:
+            for k_, a_ in live_capture.items():
+                if not isinstance(a_, T) or k_ in bound:
+                    continue
+                vals = [fe.get(k_) for fe in finals]
+                if any(v is None for v in vals) or any(v is not vals[0] for v in vals[1:]):
+                    continue
+                v = vals[0]
+                if v is not a_ and self._rooted_at(v, a_) and env.get(k_) is a_:
+                    env[k_] = v
         return subst_fall(ret, const(None, e, self.fn))
 
     @staticmethod
@@ -1867,6 +1984,31 @@ class FuncGraph:
             lo2, hi2 = neg(idx.args[0]), neg(idx.args[1])
             if lo2 is not idx.args[0] or hi2 is not idx.args[1]:
                 idx = self.mk('slice', (lo2, hi2, idx.args[2]), idx.node)
+        if idx.op == 'const' and isinstance(idx.args[0], str) and base.op == 'gamma':
+            # (d1 if c else d2)['key'] with dict displays: d1['key'] if c else d2['key']
+            def pick(b, depth=0):
+                if b.op == 'gamma' and depth < 6:
+                    x, y = pick(b.args[1], depth + 1), pick(b.args[2], depth + 1)
+                    return self.mk('gamma', (b.args[0], x, y), e) if x is not None and y is not None else None
+                if b.op == 'dict':
+                    for k, v in zip(b.args[0], b.args[1]):
+                        if k.op == 'const' and k.args[0] == idx.args[0]:
+                            return v
+                    return self.mk('unknown', ('keyerror',), e) if all(k.op == 'const' for k in b.args[0]) else None
+                if b.op == 'raise' or (b.op == 'unknown' and b.args == ('keyerror',)):
+                    return b
+                return None
+            got = pick(base)
+            if got is not None:
+                return got
+        if idx.op == 'gamma' and self._tuple_tree(idx):
+            # x[sel] with sel = (...,) if c else (..., -1): one subscript per alternative
+            def dist(i, depth=0):
+                if i.op == 'gamma' and depth < 4:
+                    return self.mk('gamma', (i.args[0], dist(i.args[1], depth + 1), dist(i.args[2], depth + 1)), e)
+                sub_ = self._keepdims_form(base, i, e) or self._matvec_form(base, i, e)
+                return sub_ if sub_ is not None else self.mk('sub', (base, i), e)
+            return dist(idx)
         kd = self._keepdims_form(base, idx, e)
         if kd is not None:
             return kd
@@ -1996,20 +2138,27 @@ class FuncGraph:
         f = self.prog.nested_func(self.cur_fn, fd)
         t = self.mk('closure', (f,), e)
         t.extra = dict(env)
+        t.extra[('$scope',)] = (id(self.cur_fn), len(self._inline_stack))
         return t
 
     def _comp(self, e, env, kind, elts):
         # [f(x) for x in (p, q)] over a short display is the display [f(p), f(q)]
-        if kind in ('list', 'gen') and len(e.generators) == 1 and not e.generators[0].ifs and not e.generators[0].is_async and not self._loops:
+        if kind in ('list', 'gen', 'dict') and len(e.generators) == 1 and not e.generators[0].ifs and not e.generators[0].is_async and not self._loops:
             g0 = e.generators[0]
             n_ev = len(self.events)
             it0 = self.expr(g0.iter, env)
             if it0.op in ('tuple', 'list') and 1 <= len(it0.args[0]) <= 6 and not any(x.op == 'star' for x in it0.args[0]):
-                vals = []
+                vals, keys = [], []
                 for item in it0.args[0]:
                     env2 = dict(env)
                     self._assign_display(g0.target, item, env2, e)
-                    vals.append(self.expr(elts[0], env2))
+                    if kind == 'dict':
+                        keys.append(self.expr(elts[0], env2))
+                        vals.append(self.expr(elts[1], env2))
+                    else:
+                        vals.append(self.expr(elts[0], env2))
+                if kind == 'dict':
+                    return self.mk('dict', (tuple(keys), tuple(vals)), e)          # {k: f(v) for k, v in <display>} is the dict display
                 return self.mk('list' if kind == 'list' else 'tuple', (tuple(vals),), e)
             del self.events[n_ev:]          # (the iterable is evaluated again below, under the comprehension guard)
         env2 = dict(env)
